@@ -16,7 +16,7 @@ Decode == /\ pc = "Decode" /\ pc' = "done" /\ out' = [res |-> IF in.good THEN "a
 Next == TryRaw \/ Inflate \/ Decode
 Spec == Init /\ [][Next]_vars /\ WF_vars(Next)
 Done == pc = "done"
-AsObs(o) == [res |-> o.res, same |-> TRUE, alloc_kib |-> 0]
+AsObs(o) == [res |-> o.res, same |-> TRUE, alloc_kib |-> 0, input_kib |-> 0]
 InvC12 == Done => C12_OK(cfg, in, AsObs(out))
 RunAgrees == Done => out = ModelOut(cfg, in)
 Frozen == [][cfg' = cfg /\ in' = in]_vars
